@@ -87,7 +87,8 @@ fn alphabet() -> Vec<AAttr> {
     v.push(sp("{...{ a: x }}", true, false, false, false, false));
     v.push(sp("v-model={m1}", false, false, false, false, true)); // directive on elements only
     v.push(sp("v-model={[m1, \"arg\"]}", false, false, true, false, true));
-    v.push(sp("v-model={[m1, dyn1]}", true, false, true, false, true));
+    // a computed argument also yields a computed listener key on a plain element
+    v.push(sp("v-model={[m1, dyn1]}", true, false, false, false, true));
     v.push(sp("v-foo={x}", false, true, false, false, false));
     v.push(sp("v-show={x}", false, true, false, false, false));
     v.push(sp("v-html={x}", false, false, false, false, false));
